@@ -91,7 +91,11 @@ class GaussianMixture:
         best_params = None
         best_lower_bound = -np.inf
 
+        # Seed for a reproducible initialisation, but give the caller's global stream
+        # back afterwards instead of leaving it reset to a fixed value
+        global_rng_state = None
         if self.random_state is not None:
+            global_rng_state = np.random.get_state()
             np.random.seed(self.random_state)
 
         for init in range(self.n_init):
@@ -124,6 +128,9 @@ class GaussianMixture:
             if lower_bound > best_lower_bound:
                 best_lower_bound = lower_bound
                 best_params = (weights, means, covariances, iteration + 1)
+
+        if global_rng_state is not None:
+            np.random.set_state(global_rng_state)
 
         # Store best parameters
         self.weights_, self.means_, self.covariances_, self.n_iter_ = best_params
